@@ -89,7 +89,7 @@ def run_line(sx):
 _RAND = {"fixed": None}
 
 
-def run_plane(sx, mode="sym-normal"):
+def run_plane(sx, mode="sym-normal", off_plane=False):
     point = _v(sx, "q")
     if mode == "sym-normal":
         n = _v(sx, "n")
@@ -101,12 +101,25 @@ def run_plane(sx, mode="sym-normal"):
     else:
         n = sx.vec(1.5, 3.0, 3.0)
         _RAND["fixed"] = None                 # the random vector is symbolic in this job
+    from symx import stubs_opt
     try:
-        # creation position = the plane point itself (on the manifold)
-        clamp = cb.PlaneClamp(point, point, n)
+        if off_plane:
+            # created at a position that is not on the declared plane: whatever parameters the initial minimisation
+            # returns (here: arbitrary ones), the clamp moves in the DECLARED plane
+            stubs_opt.CLAMP_INIT_MODE["mode"] = "any"
+            clamp = cb.PlaneClamp(_v(sx, "x"), point, n)
+        else:
+            # creation position = the plane point itself (on the manifold)
+            clamp = cb.PlaneClamp(point, point, n)
     except ZeroDivisionError:
         sx.reach("degenerate-basis")
         return "degenerate-basis"
+    finally:
+        stubs_opt.CLAMP_INIT_MODE["mode"] = "root"
+    if off_plane:
+        sx.reach("clamp")
+        sx.prove_close(_dot(clamp.position - point, n), 0, "PlaneClamp created off the plane: its position (for whatever initial "
+                       "parameters) lies in the declared plane", key="C17:plane:on-manifold:created-off-plane")
     a, b = sx.real("a", -5, 5), sx.real("b", -5, 5)
     clamp.update_params([a, b])
     sx.reach("clamp")
@@ -249,6 +262,7 @@ def jobs(tier, seed):
         {"name": "line", "fn": "run_line"},
         {"name": "plane:normal=k*(1,2,2),pinned-random", "fn": "run_plane", "params": {"mode": "scaled-normal"}},
         {"name": "plane:pinned-normal,symbolic-random", "fn": "run_plane", "params": {"mode": "sym-random"}},
+        {"name": "plane:created off the plane", "fn": "run_plane", "params": {"mode": "scaled-normal", "off_plane": True}},
         {"name": "radial:axis=(0,0,2)", "fn": "run_radial", "params": {"axis": [0, 0, 2]}},
         {"name": "radial:axis=(1.5,3,3)", "fn": "run_radial", "params": {"axis": [1.5, 3, 3]}},
         {"name": "curve:line", "fn": "run_curve", "params": {"kind": "line"}},
